@@ -435,6 +435,11 @@ func Run(c *common.Ctx) error {
 			return err
 		}
 	}
+	for i := 0; i < c.Pick(2, 6); i++ {
+		if err := retentionRejoin(c, i); err != nil {
+			return err
+		}
+	}
 	for i := 0; i < c.Pick(1, 3); i++ {
 		if err := multiDB(c, i); err != nil {
 			return err
